@@ -212,5 +212,6 @@ Export ==
                  out   |-> {e \in Exps : ~InRange(b, Scaled(Val(b, s), e))},
                  inf   |-> {e \in Exps : BeyondDouble(Scale(Val(b, s)[2], e))},
                  long  |-> {e \in Exps : NumeralTooLong(s, e)},
-                 pfar  |-> PlacesFar]))
+                 pfar  |-> PlacesFar,
+                 exps  |-> Exps]))
 =============================================================================
